@@ -22,11 +22,11 @@ certificate option set).  Called from checks/c05.py as `run(ctx, quick)`.
      any other disagreement -> model divergence.
 """
 
-import json
 import os
+from concurrent.futures import ThreadPoolExecutor
 
 from harness import tlc
-from harness.framework import MachineryError, VERIF
+from harness.framework import VERIF
 
 SPEC = os.path.join(VERIF, 'specs', 'Auth')
 INVS = ['KeyIsCeiling', 'CertIsCeiling', 'EmptyCertGrantsNothing',
@@ -34,7 +34,7 @@ INVS = ['KeyIsCeiling', 'CertIsCeiling', 'EmptyCertGrantsNothing',
         'Monotone', 'RestrictThenPermit', 'ForcedCommandWins',
         'PermitOpenEnforced', 'FromEnforced', 'CertConditionsEnforced',
         'PlainKeyNotViaCALine']
-ALL = '{"perm", "seq", "cmd", "open", "match"}'
+ALL = '{"perm", "seq", "cmd", "open", "match", "mix"}'
 WORKERS = 4
 
 # the one place where asyncssh is known not to follow sshd(8): see
@@ -56,23 +56,22 @@ def write_cfg(name, consts, invariants):
     return name
 
 
-def mc(ctx, tag, consts, invariants, expect=None, workers=WORKERS):
+def tlc_job(tag, consts, invariants, workers=WORKERS):
+    """Start-to-finish TLC run (thread-safe: own cfg, own metadir)."""
     cfg = write_cfg(f'_{tag}.cfg', consts, invariants)
     try:
-        res = tlc.run(SPEC, 'Restrict', cfg, tag, timeout=900,
-                      workers=workers)
+        return tlc.run(SPEC, 'Restrict', cfg, tag, timeout=900,
+                       workers=workers)
     finally:
         os.remove(os.path.join(SPEC, cfg))
-    ctx.require_tlc_ok(f'Restrict {tag} {consts}', res,
-                       expect_violation=expect)
-    tlc.cleanup(tag)
-    return res
+        tlc.cleanup(tag)
 
 
 def table(ctx, tier):
     """One exhaustive run: every invariant over every row + the table."""
-    res = mc(ctx, 'C05r_tab', dict(Tier=f'"{tier}"'), INVS + ['EmitRow'],
-             workers=1)
+    consts = dict(Tier=f'"{tier}"')
+    res = tlc_job('C05r_tab', consts, INVS + ['EmitRow'], workers=1)
+    ctx.require_tlc_ok(f'Restrict table + invariants {consts}', res)
     rows = []
     for line in res.output.splitlines():
         if not line.startswith('"<<\\"ROW'):
@@ -80,6 +79,27 @@ def table(ctx, tier):
         v = tlc.parse_value(tlc.parse_value(line))
         rows.append((v[1], v[2]))
     return rows
+
+
+def sensitivity(quick):
+    """(name, constants, invariant that must be violated)"""
+    small = '{"perm", "cmd"}'
+    runs = [
+        ('C05r_sens1', dict(EmptyCertIsNoCert='TRUE', Sections=small),
+         'EmptyCertGrantsNothing'),
+        ('C05r_sens2', dict(KeyCommandFirst='TRUE', Sections='{"cmd"}'),
+         'ForcedCommandWins'),
+        ('C05r_sens3', dict(RestrictRule='FALSE', Sections='{"seq"}'),
+         'RestrictThenPermit'),
+    ]
+    if not quick:
+        runs += [
+            ('C05r_sens4', dict(EitherGrants='TRUE', Sections=small),
+             'CertIsCeiling'),
+            ('C05r_sens5', dict(RestrictRule='FALSE', Sections='{"seq"}'),
+             'KeyIsCeiling'),
+        ]
+    return runs
 
 
 def _set(v):
@@ -92,20 +112,14 @@ def run(ctx, quick):
 
     # ---- 1. the rule as a decision table ----
     rows = table(ctx, tier)
-    ctx.require(len(rows) > (500 if quick else 2000),
+    ctx.require(len(rows) > (500 if quick else 1500),
                 f'Restrict table has only {len(rows)} rows')
-    small = '{"perm", "cmd"}'
-    mc(ctx, 'C05r_sens1', dict(EmptyCertIsNoCert='TRUE', Sections=small),
-       ['EmptyCertGrantsNothing'], expect='EmptyCertGrantsNothing')
-    mc(ctx, 'C05r_sens2', dict(KeyCommandFirst='TRUE', Sections='{"cmd"}'),
-       ['ForcedCommandWins'], expect='ForcedCommandWins')
-    mc(ctx, 'C05r_sens3', dict(RestrictRule='FALSE', Sections='{"seq"}'),
-       ['RestrictThenPermit'], expect='RestrictThenPermit')
-    if not quick:
-        mc(ctx, 'C05r_sens4', dict(EitherGrants='TRUE', Sections=small),
-           ['CertIsCeiling'], expect='CertIsCeiling')
-        mc(ctx, 'C05r_sens5', dict(RestrictRule='FALSE', Sections='{"seq"}'),
-           ['KeyIsCeiling'], expect='KeyIsCeiling')
+    # deliberately wrong variants of the rule must be rejected; these small
+    # runs proceed while the rows are replayed
+    pool = ThreadPoolExecutor(max_workers=3)
+    jobs = [(tag, consts, inv,
+             pool.submit(tlc_job, tag, consts, [inv], 1))
+            for tag, consts, inv in sensitivity(quick)]
 
     # ---- 2. every row against the real server ----
     try:
@@ -117,6 +131,11 @@ def run(ctx, quick):
         ctx.coverage['restrict_rows'] = n
     finally:
         R.cleanup()
+        pool.shutdown(wait=True)
+    for tag, consts, inv, fut in jobs:
+        ctx.require_tlc_ok(f'Restrict {tag} {consts} (wrong rule, expected '
+                           f'to violate {inv})', fut.result(),
+                           expect_violation=inv)
     ctx.assumptions += [
         'Restrict: permissions are observed at the point where the server '
         'hands the request to the application (pty_requested, '
@@ -140,8 +159,7 @@ def judge(ctx, R, cred, verdict, n):
     obs = R.run_case(case, **kw)
     sec = cred['sec']
     desc = R.describe(case)
-    key = (sec, desc)
-    nontrivial = obs['accepted'] or not verdict['acc']
+    key = (sec, desc, str(kw.get('client_env')))
     ctx.count(key, nontrivial=True)
     replay = {'kind': 'restrict', 'case': case, 'kw': kw,
               'spec_verdict': verdict, 'observed': obs}
@@ -190,11 +208,9 @@ def judge(ctx, R, cred, verdict, n):
                               f'restrictions forbid it: {desc}',
                               replay=replay)
         elif not allowed and op in want:
-            if op not in coded:
-                # the restrict-word finding seen from the other side
-                # (e.g. "no-pty,pty"): refusing is not a breach
-                ctx.count(('restrict-finding-overstrict', desc, op))
-            else:
+            if op in coded:
+                # (not in coded: the restrict-word finding seen from the
+                # other side, e.g. "no-pty,pty": refusing is no breach)
                 ctx.divergence(f'{desc}: model allows {op}, code refuses')
     # -- permitopen
     dwant = {f'{d["h"]}:{d["p"]}' for d in _set(verdict['dests'])}
@@ -233,7 +249,7 @@ def judge(ctx, R, cred, verdict, n):
             ctx.divergence(f'{desc}: request {req}: model {exp}, code '
                            f'{got}')
     # -- environment (conformance only)
-    if kw.get('requests') and sec == 'cmd':
+    if kw.get('requests') and sec in ('cmd', 'mix'):
         exp_env = R.env_text(verdict['env'])
         for req, got in obs['started'].items():
             if got['env'] is not None and got['env'].get('N') != exp_env:
